@@ -280,7 +280,7 @@ fn main() {
 
     // (2) pairs with a third task that compiles and drops filters between the steps (shorter tasks: create, 1 pull, drop)
     // compiling is three orders of magnitude dearer than a pull: the quick tier takes every 40th pair and the diagonal
-    let cpairs: Vec<(usize, usize)> = pairs.iter().enumerate().filter(|(k, p)| !run.quick() || k % 40 == 0 || p.0 == p.1).map(|(_, p)| *p).collect();
+    let cpairs: Vec<(usize, usize)> = pairs.iter().enumerate().filter(|(k, p)| k % (if run.quick() { 40 } else { 5 }) == 0 || p.0 == p.1).map(|(_, p)| *p).collect();
     let c = cpairs
         .par_iter()
         .map(|(a, b)| {
@@ -310,8 +310,9 @@ fn main() {
     let triples: Vec<(usize, usize, usize)> = if run.quick() {
         (0..tasks.len()).flat_map(|a| [(a, a, a), (a, (a + 1) % tasks.len(), (a + 2) % tasks.len()), (a, a, (a + 5) % tasks.len())]).collect()
     } else {
+        // all triples over every second task (a third member from every third of those)
         let n = tasks.len();
-        (0..n).flat_map(|a| (0..n).flat_map(move |b| (0..n).step_by(3).map(move |c| (a, b, c)))).collect()
+        (0..n).step_by(2).flat_map(|a| (0..n).step_by(2).flat_map(move |b| (0..n).step_by(6).map(move |c| (a, b, c)))).collect()
     };
     let alone2: Vec<Vec<String>> = iso.iter().map(|x| x.1.clone()).collect();
     let c = triples
